@@ -113,9 +113,22 @@ def oracle(case: dict) -> Outcome:
         cl.append("uninformative")
     k = solver["kind"]
     if k in ("eigen", "eigen_stab"):
+        A0 = A.clone()
         ok, X = call_sut(out, "C10.call", f"matrix_inverse_root[{k}]", lambda: mf.matrix_inverse_root(A, rootf, _cfg(solver), epsilon=eps))
         if not ok:
             return out
+        # purity: the input is untouched and separate calls do not alias (overwrite the first result, call again, same value)
+        if not torch.equal(A, A0):
+            out.fail("C10.purity.inputs", "matrix_inverse_root modified its input in place")
+        if n >= 1 and X.data_ptr() != A.data_ptr():
+            keep = X.clone()
+            X.fill_(float("nan"))
+            if not torch.equal(A, A0):
+                out.fail("C10.purity.aliasing", "the returned root shares memory with the input")
+            ok2, X2 = call_sut(out, "C10.call", f"matrix_inverse_root[{k}] (second call)", lambda: mf.matrix_inverse_root(A, rootf, _cfg(solver), epsilon=eps))
+            if ok2 and not (X2.shape == keep.shape and torch.equal(X2, keep)):
+                out.fail("C10.purity.aliasing", "a second call returns a different root after the first result was overwritten (results alias a shared object)")
+            X = keep
         if X.dtype != dt and n > 1:
             out.classes.append(f"returned_{X.dtype}")
         e = rel_err(X, Xr)
